@@ -27,6 +27,7 @@ FIXED = [
  ("sigmf::write produced a datatype", "C14", "iosim sigmf leg, recording whose metadata comes from rustradio::sigmf::write: SigMFSourceBuilder::<Complex>::build() fails with 'data type (cf32) not the expected cf32_le' (pointed out by a sub-agent's side remark, then reproduced by the leg)"),
  ("FileSource and SigMFSource carried a partial sample", "C16", "c16 seeded source case, file ending in 1..size-1 stray bytes with repeat >= 2: FileSource<Complex> len 1 repeat 3 emits 4 items (expected 3); SigMFSource(recording) with no whole sample, repeat 2, emits 1 item made of the stray bytes (pointed out by a sub-agent's side remark, then reproduced by the check)"),
  ("SymbolSync and ZeroCrossing panicked when their clock output", "C08", "rig, adapters with the optional clock output connected: input waiting, symbol output with 1 free slot, clock output full -> work() panics with index out of bounds (symbol_sync.rs:137, zero_crossing.rs write of the clock sample); C15 too (a panic)"),
+ ("FileSink dropped everything past the first MiB", "C17", "iosim crash/kill runs and C14 file leg, default-size stream holding more than 1 MiB at one work() call (VERIF_SEED=1 quick: C14 run 74 n 1048577, C17 runs 115/194): FileSink serialised the first MiB of its window and consumed all of it -> file holds 1048576 bytes where 1048577+ were acknowledged (C17:acknowledged-data-missing, C17:not-a-prefix, C14:file-sink-bytes). The change was seeded change N09, left applied in /repo's working tree and committed there by the round-1 snapshot (743949f); the fix restores file_sink.rs"),
  ("AVX build of Fir::filter_float", "C11", "kernel case on the AVX build flavour: Fir::filter_float(input longer than taps) panics (assert_eq on lengths) while the scalar kernel returns the dot product"),
  ("derive(Block) sync blocks with three or more inputs", "C19", "build: a harness block with three #[rustradio(in)] streams in sync mode fails to compile (nested tuple vs flat pattern in the generated work())"),
  ("Append mode did not create a missing file", "C17", "iosim: Mode::Append on an absent file -> ENOENT although the documentation says it is created"),
